@@ -1,8 +1,12 @@
 package sim
 
 import (
+	"berty.tech/go-ipfs-log/entry"
+	"berty.tech/go-orbit-db/stores/operation"
 	"fmt"
+	cid "github.com/ipfs/go-cid"
 	"sort"
+	"sync"
 	"time"
 
 	"berty.tech/go-orbit-db/iface"
@@ -269,4 +273,132 @@ func c05Recover(k *K, c *Cluster, T *Node, p int, must []string, universe map[st
 			k.Failf("C05/recover/cannot-write", "prefix %d: a write on the recovered store failed: done=%v err=%v", p, wop.Done, wop.Err)
 		}
 	}
+}
+
+func init() {
+	Register(&Scenario{Prop: "C05", Name: "restart-with-refused-ancestor", Run: scenC05Refused, SoftParks: true, Weight: 1,
+		Rule: "writer W, replica R and a second authorised writer C that misbehaves: besides 1-4 honest writes by W, C publishes 1-3 valid entries of its own whose next or refs name an entry that every replica refuses (written under W's id with C's keys, or written for another log); R replicates (every EventReplicated is an acknowledgement), W and R may write on top; then R is stopped (cleanly, or by a crash once the world is at rest), restarted on its directory and loaded; oracle: every entry R had acknowledged (own writes, replicated batches) is in the recovered log, no refused entry is, and a new write succeeds; non-trivial = R had acknowledged at least one entry of C whose ancestry holds a refused entry"})
+}
+
+func scenC05Refused(k *K) {
+	adv := k.NewAdversary()
+	typ := []string{"keyvalue", "eventlog"}[k.C.Intn(2)]
+	c := k.NewCluster(ClusterCfg{N: 2, Type: typ, Writers: []int{0, 1}, ExtraIDs: []string{adv.Own.ID}})
+	R := c.Stores[1]
+	adv.Engage(c.Peers[1], R)
+	acked := map[string]bool{}
+	refused := map[string]bool{}
+	var mu sync.Mutex
+	sub, err := c.Peers[1].DB.EventBus().Subscribe(new(stores.EventReplicated), eventbus.BufSize(1024))
+	if err != nil {
+		panic(abortPanic{err.Error()})
+	}
+	inc := c.Peers[1].Inc
+	go func() {
+		defer sub.Close()
+		for {
+			select {
+			case e := <-sub.Out():
+				mu.Lock()
+				for _, en := range e.(stores.EventReplicated).Entries {
+					acked[en.GetHash().String()] = true
+				}
+				mu.Unlock()
+			case <-inc.Ctx.Done():
+				return
+			}
+		}
+	}()
+	tainted := 0
+	for i, m := 0, k.C.Range(1, 4); i < m; i++ {
+		c.RandomWrite(0)
+		k.Steps(k.C.Intn(6))
+	}
+	for a, m := 0, k.C.Range(1, 3); a < m; a++ {
+		maxT := 0
+		var heads []cid.Cid
+		for _, e := range LogValues(c.Stores[0]) {
+			if t := e.GetClock().GetTime(); t > maxT {
+				maxT = t
+			}
+		}
+		for _, h := range c.Stores[0].OpLog().Heads().Slice() {
+			heads = append(heads, h.GetHash())
+		}
+		key := "z"
+		payload, _ := operation.NewOperation(&key, "PUT", []byte(fmt.Sprintf("bad-%d", a))).Marshal()
+		if typ == "eventlog" {
+			payload, _ = operation.NewOperation(nil, "ADD", []byte(fmt.Sprintf("bad-%d", a))).Marshal()
+		}
+		// the entry everybody refuses
+		var bad *entry.Entry
+		if k.C.Chance(1, 2) {
+			ident, priv := adv.ForgedIdentity("copied-id", c.Peers[0].DB.Identity())
+			bad, err = adv.Craft("copied-id", ident, priv, c.Addr, payload, nil, maxT+1)
+		} else {
+			bad, err = adv.Craft("own", adv.Own, nil, c.Addr+"-other", payload, nil, maxT+1)
+		}
+		if err != nil {
+			continue
+		}
+		refused[bad.Hash.String()] = true
+		nx, rf := append([]cid.Cid{bad.Hash}, heads...), []cid.Cid{}
+		if k.C.Chance(1, 2) {
+			nx, rf = heads, []cid.Cid{bad.Hash}
+		}
+		child, err := adv.CraftRefs("own", adv.Own, nil, c.Addr, payload, nx, rf, maxT+2)
+		if err != nil {
+			continue
+		}
+		adv.Deliver([]string{"topic", "direct", "sync"}[k.C.Intn(3)], c.Peers[1], R, child)
+		k.Steps(k.C.Range(5, 30))
+		if LogHashSet(R)[child.Hash.String()] {
+			tainted++
+		}
+		if k.C.Chance(1, 2) {
+			if wr := c.RandomWrite(1); wr != nil {
+				mu.Lock()
+				acked[wr.Hash] = true
+				mu.Unlock()
+			}
+		}
+		if k.C.Chance(1, 2) {
+			c.RandomWrite(0)
+		}
+		k.Steps(k.C.Intn(10))
+	}
+	k.Settle(90*time.Second, 3000, nil)
+	mu.Lock()
+	must := map[string]bool{}
+	for h := range acked {
+		must[h] = true
+	}
+	mu.Unlock()
+	for h := range refused {
+		if LogHashSet(R)[h] {
+			k.Failf("C05/recover/phantom-entry", "before the restart: R holds an entry every replica must refuse")
+		}
+	}
+	c.Down(1, k.C.Chance(1, 2))
+	if err := c.Up(1); err != nil {
+		k.Failf("C05/restart-load-error", "restart of R failed: %v", err)
+	}
+	R = c.Stores[1]
+	have := LogHashSet(R)
+	for h := range must {
+		if !have[h] {
+			k.Failf("C05/recover/acked-entry-lost", "after the restart R lacks %s, which it had acknowledged (its own write, or reported as replicated); %d entries of the misbehaving writer with a refused entry in their ancestry had been merged; recovered %d entries: %v", c.nameOf(h), tainted, len(have), LogNames(R))
+		}
+	}
+	for h := range refused {
+		if have[h] {
+			k.Failf("C05/recover/phantom-entry", "after the restart R holds an entry every replica must refuse (it was named by a valid entry of an authorised writer)")
+		}
+	}
+	if wr := c.RandomWrite(1); wr == nil {
+		k.W.Stat("post-restart-write-refused")
+	}
+	k.Notes["tainted_merged"] = tainted
+	k.Notes["nontrivial"] = tainted > 0
+	c.CloseAll()
 }
